@@ -15,16 +15,20 @@
      fx_clone  : nni_url_clone_inline allocates dst->u_bufsz (0) bytes;
      fx_clone_null : nni_url_clone_inline rebases u_hostname without testing it
                  for NULL (it is NULL for ipc/inproc/unix/abstract/socket URLs):
-                 the clone's u_hostname is a wild pointer.
+                 the clone's u_hostname is a wild pointer;
+     fx_bracket : inside "[" ... "]" any byte is accepted, in particular a second
+                 '[' ("tcp://[[x]" gives the host "[x", which nng_url_sprintf prints
+                 as "tcp://[x:0", which is rejected): repaired = a '[' inside the
+                 brackets is NNG_EINVAL.
    Allocation failure itself (nni_strdup unchecked) belongs to C20 and is
    not represented here. *)
 From Coq Require Import List Arith Lia Bool NArith.
 From NngV Require Import Base.ListX Url.Utf8Model Url.CanonModel.
 Import ListNotations.
 
-Record uflags := mkUflags { fx_scheme : bool; fx_utf8 : bool; fx_clone : bool; fx_clone_null : bool }.
-Definition fx_pinned : uflags := mkUflags false false false false.
-Definition fx_repaired : uflags := mkUflags true true true true.
+Record uflags := mkUflags { fx_scheme : bool; fx_utf8 : bool; fx_clone : bool; fx_clone_null : bool; fx_bracket : bool }.
+Definition fx_pinned : uflags := mkUflags false false false false false.
+Definition fx_repaired : uflags := mkUflags true true true true true.
 
 (* the tables, as byte strings (ASCII codes); tied to the generated ones by
    url_consts_match in Props/Properties_C19.v *)
@@ -292,13 +296,15 @@ Definition parse_qf (b : list N) (p : nat) : ures (list N * option nat * option 
   else UVal (b, None, None).
 
 (* phase 8: IPv6 brackets, port.  Returns buffer, u_hostname, u_port *)
-Definition parse_hostport (resolver : list N -> option N) (sch : list N) (b : list N) (h : nat)
+Definition stop_bracket (brk_fixed : bool) (c : N) : bool := (c =? 93) || (c =? 0) || (brk_fixed && (c =? 91)).
+
+Definition parse_hostport (brk_fixed : bool) (resolver : list N -> option N) (sch : list N) (b : list N) (h : nat)
   : ures (list N * nat * N) :=
   c0 <~! brd b h ;;
   st <~ (if c0 =? 91 then
-           j <~! c_scan (fun c => (c =? 93) || (c =? 0)) b (S h) ;;
+           j <~! c_scan (stop_bracket brk_fixed) b (S h) ;;
            cj <~! brd b j ;;
-           if cj =? 0 then UErr NNG_EINVAL else
+           if (cj =? 0) || (brk_fixed && (cj =? 91)) then UErr NNG_EINVAL else
            b1 <~! bwr b j 0 ;;
            c' <~! brd b1 (S j) ;;
            if negb (c' =? 58) && negb (c' =? 0) then UErr NNG_EINVAL
@@ -338,7 +344,7 @@ Definition url_parse (fx : uflags) (resolver : list N -> option N) (raw : list N
   b6 <~ canon_at (fx_utf8 fx) b5 p ;;
   qf <~ parse_qf b6 p ;;
   let '(b7, query, fragment) := qf in
-  hp <~ parse_hostport resolver sch b7 h ;;
+  hp <~ parse_hostport (fx_bracket fx) resolver sch b7 h ;;
   let '(b8, h', port) := hp in
   UVal (mkNurl sch userinfo (Some h') port p query fragment b8 bufsz).
 
